@@ -1,1 +1,4 @@
 import SpecterModel.C11.Props
+import SpecterModel.C12.Props
+import SpecterModel.C28.Props
+import SpecterModel.C34.Props
